@@ -168,31 +168,31 @@ Proof.
   - rewrite IH. apply bytes_eqb_neq in E. split; [auto|intros [H|H]; [contradiction|exact H]].
 Qed.
 
-Lemma count_id_sum i sets : count_id i sets = fold_right (fun s n => count_in i s + n) 0 sets.
+Lemma has_event_ids i s : has_event i s = true <-> In i (ids_of s).
 Proof.
-  unfold count_id. induction sets as [|s r IH]; simpl; [reflexivity|].
-  rewrite filter_app, app_length, IH. reflexivity.
+  unfold has_event. induction s as [|x r IH]; simpl; [split; [discriminate|tauto]|].
+  destruct (bytes_eqb i (e_id x)) eqn:E.
+  - apply bytes_eqb_eq in E. split; [auto|reflexivity].
+  - rewrite IH. apply bytes_eqb_neq in E. split; [auto|intros [H|H]; [congruence|exact H]].
 Qed.
 
+Lemma filter_length_le {A} (p : A -> bool) l : length (filter p l) <= length l.
+Proof. induction l as [|x r IH]; simpl; [lia|]. destruct (p x); simpl; lia. Qed.
+
+(* an event counts once per state set that lists it (after the F80 repair), so "seen in every
+   set" needs no assumption on repeated entries; the hypothesis is kept for the callers *)
 Lemma count_full i sets :
   (forall s, In s sets -> NoDup (ids_of s)) ->
   (count_id i sets = length sets <-> forall s, In s sets -> In i (ids_of s)).
 Proof.
-  rewrite count_id_sum. induction sets as [|s r IH]; simpl; intro ND; [split; [tauto|reflexivity]|].
-  assert (L1 : count_in i s <= 1) by (apply count_in_le1, ND; left; reflexivity).
-  assert (Lr : fold_right (fun s n => count_in i s + n) 0 r <= length r).
-  { clear IH. assert (NDr : forall s', In s' r -> NoDup (ids_of s')) by (intros; apply ND; right; assumption).
-    clear ND L1. induction r as [|s' r' IHr]; simpl; [lia|].
-    pose proof (count_in_le1 i s' (NDr s' (or_introl eq_refl))).
-    assert (fold_right (fun s n => count_in i s + n) 0 r' <= length r') by (apply IHr; intros; apply NDr; right; assumption).
-    lia. }
-  specialize (IH (fun s' H => ND s' (or_intror H))). split.
-  - intros H s' [<-|Hs'].
-    + apply count_in_pos. lia.
-    + apply IH; [lia|exact Hs'].
-  - intro H. assert (C1 : count_in i s <> 0) by (apply count_in_pos, H; left; reflexivity).
-    assert (Cr : fold_right (fun s n => count_in i s + n) 0 r = length r) by (apply IH; intros; apply H; right; assumption).
-    lia.
+  intros _. unfold count_id. induction sets as [|s r IH]; simpl; [split; [tauto|reflexivity]|].
+  pose proof (filter_length_le (has_event i) r) as L.
+  destruct (has_event i s) eqn:E; simpl.
+  - apply has_event_ids in E. split.
+    + intros H s' [<-|Hs']; [exact E|]. apply IH; [lia|exact Hs'].
+    + intro H. f_equal. apply IH. intros; apply H; right; assumption.
+  - split; [lia|]. intro H. exfalso.
+    assert (has_event i s = true) by (apply has_event_ids, H; left; reflexivity). congruence.
 Qed.
 
 (* ---------- the theorem ---------- *)
